@@ -30,5 +30,13 @@ let () =
       let int_of_n = function N0 -> 0 | Npos p -> int_of_pos p in
       Printf.printf "%d\n" (int_of_n (itable_len_new (n_of_int (int_of_string t.(1))) (n_of_int (int_of_string t.(2))) (n_of_int (int_of_string t.(3)))))
     end
+    else if Array.length t = 4 && t.(0) = "MG" then begin
+      (* MG <s_inodes_count> <s_free_inodes_count> <inodes per group> -> groups the inodes in use need | INCONSISTENT *)
+      let rec int_of_pos = function XH -> 1 | XO p -> 2 * int_of_pos p | XI p -> 2 * int_of_pos p + 1 in
+      let int_of_n = function N0 -> 0 | Npos p -> int_of_pos p in
+      (match min_groups_new (n_of_int (int_of_string t.(1))) (n_of_int (int_of_string t.(2))) (n_of_int (int_of_string t.(3))) with
+       | Some g -> Printf.printf "%d\n" (int_of_n g)
+       | None -> print_endline "INCONSISTENT")
+    end
     else print_endline "?"
   done with End_of_file -> ()
